@@ -30,14 +30,14 @@ def const_term(c):
         return ("const", ty, ("fn", c["fn"]), None)
     if "static" in c:
         return ("const", ty, ("static", c["static"]), None)
+    if "promoted" in c:
+        return ("const", ty, ("promoted", c["promoted"], _freeze(c.get("val"))), None)
     if "val" in c:
         return ("const", ty, ("val", _freeze(c["val"])), c.get("def"))
     if "def" in c:
         return ("const", ty, ("def", c["def"]), c["def"])
     if c.get("zst"):
         return ("const", ty, ("zst",), None)
-    if "promoted" in c:
-        return ("const", ty, ("promoted", c["promoted"]), None)
     return ("const", ty, None, None)
 
 
